@@ -124,6 +124,7 @@ func c17Eval(c c17Case) (ok bool, sig, detail string) {
 			text = strings.ReplaceAll(text, "\n", "\r\n")
 		}
 		got, errText, pan := scanFasta([]byte(text))
+		engine.Outcome(fmt.Sprintf("%x", engine.Hash(text)))
 		if pan != "" {
 			return false, "scan-panic", "scanner panics: " + pan
 		}
